@@ -267,6 +267,9 @@ func (g *Gen) fill(k Kind, depth int, hidden bool) *Node {
 	for _, b := range ki.NInts {
 		n.N = append(n.N, g.T.Draw(b))
 	}
+	if k == WDomain && g.T.Bool(1, 8) {
+		n.S[0] = Str{Safe: true} // WithDomain(err, NoDomain)
+	}
 	if k == WTelemetry {
 		switch g.T.Draw(8) {
 		case 0, 1:
